@@ -406,4 +406,6 @@ def run(ctx):
     from . import C20 as _C20
     _reach = _C20.input_reachable(ctx)
     _C20.r12_subtractions(ctx, _reach)      # arithmetic on buffer sizes in the codec cannot underflow
+    _C20.r9_str_index(ctx, _reach)          # nor is text decoded from a payload cut at a byte position that need not be a character boundary
+    _C20.r17_panicking_index_methods(ctx, _reach)
     _C20.r13_slice_indices(ctx, _reach)     # no slice of the receive buffer is taken before the bytes are known to be there (log previews included)
